@@ -3,7 +3,11 @@
 (step, context shape, occupancy mask))."""
 import os
 SHAPES = ["r", "rr", "rv", "rrr", "rrv", "rvr", "rvv"]
-STEPS = ["lookup", "assign", "unset", "pop", "push", "attrs", "env"]
+# "env" (env_c_strings) is not registered: measured - still in symbolic execution after 15 min per arm (memchr in
+# str::contains / CString::new on strings whose length depends on symbolic data), even with array formatting cut (T9v)
+STEPS = ["lookup", "assign", "unset", "pop", "push", "attrs"]
+if os.environ.get("VERIF_C16_ENV"):
+    STEPS += ["env"]
 if os.environ.get("VERIF_DBG"):
     STEPS += ["dbg1", "dbg2", "dbg3"]
 
